@@ -61,6 +61,10 @@ MUTANTS = [
      "  if (zip->Read(tbuf.data(), len) != len)\n    return false;",
      "  zip->Read(tbuf.data(), len);",
      "short read of the data block ignored"),
+    ("c12-locale-dependent-abbr", "C12", "src/time_zone_posix.cc",
+     ["#include <cstring>", "    if (strchr(\"-+,\", *p)) break;\n    if (strchr(kDigits, *p)) break;\n    ++p;"],
+     ["#include <cctype>\n#include <cstring>", "    if (!std::isalpha(static_cast<unsigned char>(*p))) break;\n    ++p;"],
+     "bare abbreviations scanned with std::isalpha: what loads depends on the process's locale"),
     ("c12-keep-half-loaded", "C12", "src/time_zone_info.cc",
      "  if (!tz->Load(name)) tz.reset();  // fallback to UTC",
      "  if (!tz->Load(name) && name.size() % 7 == 3) tz.reset();  // fallback to UTC",
